@@ -24,6 +24,13 @@ func coreC02(tier string) []RunSpec {
 		out = append(out, RunSpec{Profile: "core:swap-outputs-near-2^64", Params: map[string]int{"force": mwKind("adversarial"), "advmode": 10, "fee": fi}})
 	}
 	out = append(out, RunSpec{Profile: "core:mint-outputs-wrap", Params: map[string]int{"force": mwKind("adversarial"), "advmode": 11, "fee": 0}})
+	// MPP melts whose partial amount is a whole number of sats sitting on a step of the fee-reserve
+	// function (1 % rounded up: multiples of 100 sat): the fee limit must be the reserve, not more
+	for _, sat := range []int{200, 400} {
+		for fp := 1; fp <= 3; fp += 2 {
+			out = append(out, RunSpec{Profile: "core:mpp-on-fee-step", Params: map[string]int{"force": mwKind("melt"), "meltsat": sat, "feepol": fp, "fee": 0, "mix": 0}})
+		}
+	}
 	return out
 }
 
@@ -32,6 +39,12 @@ func runC02(rc *RunCtx) {
 	ln := LNConfig{FeePolicy: 1 + T.Choose("cfg.feepol", 3), PayOutcomeMix: T.Choose("cfg.mix", 2), ChargeFull: true}
 	if T.Chance("cfg.feepol0", 1, 5) {
 		ln.FeePolicy = 0
+	}
+	if v, ok := rc.Spec.Params["feepol"]; ok {
+		ln.FeePolicy = v
+	}
+	if v, ok := rc.Spec.Params["mix"]; ok {
+		ln.PayOutcomeMix = v
 	}
 	fi := T.Choose("cfg.fee", len(c02Fees))
 	if v, ok := rc.Spec.Params["fee"]; ok {
@@ -50,6 +63,10 @@ func runC02(rc *RunCtx) {
 	})
 	forced, isForced := rc.Spec.Params["force"]
 	m.forceAdvMode = rc.P("advmode", 0)
+	m.forceMeltSat = uint64(rc.P("meltsat", 0))
+	if m.forceMeltSat > 0 {
+		rc.Quietly(func() { m.User.Fund("A", 1024) })
+	}
 	// weights:       fund swap melt resolve replay dup race checkstate restore restart clock adv internal rotate mintrace
 	weights := []int{2, 5, 5, 2, 0, 0, 1, 0, 0, 2, 0, 4, 2, 1, 2}
 	// a quarter of the random runs additionally inject storage errors into ordinary operations
